@@ -29,6 +29,10 @@ type concOp struct {
 	raw    []byte
 	hsGood bool
 	ping   []byte // H: the PING the client is going to write
+	// S / W: the Write of this call fails: the connection takes wacc bytes and returns a net.Error of the
+	// temporary kind (a caller that retried would write again, outside anything that orders it with other senders)
+	wfail bool
+	wacc  int
 }
 
 func (o concOp) model(cf ccfg) string {
@@ -41,9 +45,9 @@ func (o concOp) model(cf ccfg) string {
 		if cf.ack && !o.noChk {
 			ch = "x" + hx(o.chunk)
 		}
-		return fmt.Sprintf("S,%s,%s,1,%s", en, ch, b01(o.ackOK))
+		return fmt.Sprintf("S,%s,%s,%s,%s", en, ch, b01(!o.wfail), b01(o.ackOK))
 	case "W":
-		return fmt.Sprintf("W,x%s,1", hx(o.raw))
+		return fmt.Sprintf("W,x%s,%s", hx(o.raw), b01(!o.wfail))
 	case "C", "R":
 		return o.kind + "," + b01(o.dialOK)
 	case "D", "T":
@@ -64,6 +68,7 @@ type concRun struct {
 	panics  map[string]interface{}
 	strace  []sched.Step
 	writes  map[int][][]byte // per connection: accepted bytes of every Write, in order
+	partial [][]byte         // accepted parts of Writes that failed (what a failed send may leave on the wire)
 	pre     []string         // events of the sequential prefix
 	elapsed time.Duration
 }
@@ -90,6 +95,7 @@ func runConcMode(cf ccfg, prefix []concOp, progs [][]concOp, choices []int, time
 	var mu sync.Mutex
 	res := concRun{rets: make([][]string, len(progs)), writes: map[int][][]byte{}}
 	cur := map[string]*concOp{}
+	wfailed := map[*concOp]bool{}
 	tidOf := func(name string) int {
 		var i int
 		if _, err := fmt.Sscanf(name, "w%d", &i); err != nil {
@@ -131,6 +137,9 @@ func runConcMode(cf ccfg, prefix []concOp, progs [][]concOp, choices []int, time
 			fmt.Sscan(parts[3], &n)
 			fmt.Sscan(parts[1], &id)
 			res.writes[id] = append(res.writes[id], b[:n])
+			if n < len(b) {
+				res.partial = append(res.partial, b[:n])
+			}
 			res.events = append(res.events, fmt.Sprintf("%d:%d:%s:%s", tid, kind, parts[1], parts[2]))
 		case "n1":
 			res.events = append(res.events, fmt.Sprintf("%d:2:%s", tid, parts[1]))
@@ -162,6 +171,15 @@ func runConcMode(cf ccfg, prefix []concOp, progs [][]concOp, choices []int, time
 					ch = append(append([]byte{}, o.chunk...), '!')
 				}
 				c.SetScriptInWrite([]fakes.ReadStep{{Data: ackBytes(ch)}})
+			}
+			if o != nil && (o.kind == "S" || o.kind == "W") && o.wfail {
+				mu.Lock()
+				first := !wfailed[o]
+				wfailed[o] = true // only the first Write of the call meets the fault
+				mu.Unlock()
+				if first {
+					return o.wacc, netFault{temporary: true}
+				}
 			}
 			if o != nil && o.kind == "H" {
 				key := cf.key
